@@ -32,26 +32,26 @@ pub enum Node {
     Number(i64),
 }
 
-fn gcd(expr1: i64, expr2: i64) -> Option<i64> {
+/// gcd of the magnitudes: in u64 the running value always fits (|i64::MIN| = 2^63), so only the final result
+/// has to fit i64 and the order of the arguments does not matter
+fn gcd(expr1: u64, expr2: u64) -> u64 {
     let mut a = expr1;
     let mut b = expr2;
     while b != 0 {
         #[cfg(feature = "verif_hooks")]
         crate::verif_hooks::tick(crate::verif_hooks::Point::EvalLoop);
-        let remainder = a.wrapping_rem(b);
+        let remainder = a % b;
         a = b;
         b = remainder;
     }
-    a.checked_abs()
+    a
 }
 
-fn lcm(expr1: i64, expr2: i64) -> Option<i64> {
+fn lcm(expr1: u64, expr2: u64) -> Option<u64> {
     if expr1 == 0 || expr2 == 0 {
         return Some(0);
     }
-    (expr1 / gcd(expr1, expr2)?)
-        .checked_mul(expr2)?
-        .checked_abs()
+    (expr1 / gcd(expr1, expr2)).checked_mul(expr2)
 }
 
 pub fn eval(expr: Node) -> Result<i64, Box<dyn error::Error>> {
@@ -164,17 +164,17 @@ pub fn eval(expr: Node) -> Result<i64, Box<dyn error::Error>> {
         Gcd(args) => {
             // Ok(gcd(eval(*expr1)?, eval(*expr2)?))
             if args.len() > 1 {
-                let mut result: Option<i64> = None;
+                let mut result: Option<u64> = None;
                 for arg in <Vec<Node> as Clone>::clone(&args).into_iter() {
                     #[cfg(feature = "verif_hooks")]
                     crate::verif_hooks::tick(crate::verif_hooks::Point::EvalLoop);
-                    let right_art = eval(arg)?;
+                    let right_art = eval(arg)?.unsigned_abs();
                     result = match result {
-                        Some(left_arg) => Some(gcd(left_arg, right_art).ok_or("Integer overflow")?),
+                        Some(left_arg) => Some(gcd(left_arg, right_art)),
                         None => Some(right_art),
                     };
                 }
-                Ok(result.unwrap())
+                i64::try_from(result.unwrap()).map_err(|_| "Integer overflow".into())
             } else {
                 match args.first() {
                     Some(arg) => Ok(eval((*arg).clone())?),
@@ -184,17 +184,23 @@ pub fn eval(expr: Node) -> Result<i64, Box<dyn error::Error>> {
         }
         Lcm(args) => {
             if args.len() > 1 {
-                let mut result: Option<i64> = None;
+                // a zero argument makes the result 0 wherever it stands: an overflow of the running value
+                // counts only when no argument is zero
+                let mut result: Option<u64> = Some(1);
+                let mut zero = false;
                 for arg in <Vec<Node> as Clone>::clone(&args).into_iter() {
                     #[cfg(feature = "verif_hooks")]
                     crate::verif_hooks::tick(crate::verif_hooks::Point::EvalLoop);
-                    let right_art = eval(arg)?;
-                    result = match result {
-                        Some(left_arg) => Some(lcm(left_arg, right_art).ok_or("Integer overflow")?),
-                        None => Some(right_art),
-                    };
+                    let right_art = eval(arg)?.unsigned_abs();
+                    zero |= right_art == 0;
+                    result = result.and_then(|left_arg| lcm(left_arg, right_art.max(1)));
                 }
-                Ok(result.unwrap())
+                if zero {
+                    return Ok(0);
+                }
+                result
+                    .and_then(|value| i64::try_from(value).ok())
+                    .ok_or_else(|| "Integer overflow".into())
             } else {
                 match args.first() {
                     Some(arg) => Ok(eval((*arg).clone())?),
